@@ -11,12 +11,17 @@
       every input and checked by the harness), then the recorded circuit, run from all-|0⟩ under EVERY outcome script, ends in exactly
       the signed group of `|G⟩ ⊗ |0…0⟩` — the conclusion of `validator_sound` without running the validator (`solve_sound`).
       The heart is the time-reversed-measurement lemma (`time_reversed_measurement_lemma`).
-  NOT proved: completeness (that `solve` returns and that `hfinal` holds for every graph: the theorem of Li, Economou and Barnes,
-  false on the current tree for graphs with an isolated vertex, finding D3) — `solver_complete_statement`.
+  (3) Completeness of the solver model (the theorem of Li, Economou and Barnes, for the code as written): for every simple graph on
+      at least one vertex without isolated vertex — more generally every stabilizer target none of whose qubits is a product qubit —
+      `solve` RETURNS (no assertion, no IndexError in any helper, in any round) and its final working tableau generates exactly the
+      group of |0…0⟩ (`solver_complete`), hence `solve_correct`: the returned circuit prepares |G⟩ ⊗ |0…0⟩ under every outcome script.
+      The only hypothesis is `hinv`: completeness of `inverse_circuit` (C11; proved on another branch, discharged at merge).
+      Graphs WITH an isolated vertex are excluded: there the code raises IndexError (finding D3), and np = 0 raises ValueError.
 -/
 import GraphiqModel.Proofs.Check
 import GraphiqModel.Proofs.Circuit
 import GraphiqModel.Proofs.SolverSoundMain
+import GraphiqModel.Proofs.SolverCompleteMain
 namespace Graphiq.C02
 open Graphiq Graphiq.PRow Graphiq.Tab Graphiq.STab
 
@@ -151,13 +156,126 @@ theorem rref_keeps_group (t t' : STab) (brs : List String) (hg : t.Good) (hr : t
   ⟨(STab.rref_spanEq_ss t t' brs hg hr).1.n_eq.symm, (STab.rref_spanEq_ss t t' brs hg hr).2,
    fun p => ⟨(STab.rref_spanEq_ss t t' brs hg hr).1.sup p, (STab.rref_spanEq_ss t t' brs hg hr).1.sub p⟩⟩
 
-/-- what remains unproved (completeness, Li–Economou–Barnes; false for graphs with an isolated vertex on the current tree — D3):
-    for every simple graph without isolated vertex the solver model returns and its final working tableau generates the group of |0…0⟩
-    (the driver prints this flag for every input and the harness checks it) -/
+/-! ## Completeness of the solver model (Li–Economou–Barnes) -/
+
+/-- completeness of `inverse_circuit` (property C11, proved on its own branch): on every real commuting generating set it returns and
+    reaches |0…0⟩.  It is the only hypothesis of the completeness theorems below. -/
+abbrev InverseCircuitComplete : Prop := ∀ t : STab, t.Good → ∃ t' c, t.inverseCircuit = .ok (t', c) ∧ t'.isZero = true
+
+/-- **completeness, full statement**: for every simple graph on at least one vertex without isolated vertex the solver model returns
+    and its final working tableau generates exactly the signed group of |0…0⟩ (the semantic content of the flag `hfinal` the driver
+    prints: `sameGroup_sound` turns the flag into this `SpanEq`).  `0 < np`: on the empty graph `determine_n_emitters` raises
+    (`max` of an empty list); isolated vertices: finding D3. -/
 def solver_complete_statement : Prop :=
-  ∀ (np : Nat) (adj : Nat → Nat → Bool), (∀ i j, adj i j = adj j i) → (∀ i, adj i i = false) →
+  ∀ (np : Nat) (adj : Nat → Nat → Bool), 0 < np → (∀ i j, adj i j = adj j i) → (∀ i, adj i i = false) →
     (∀ i, i < np → ∃ j, j < np ∧ adj i j = true) →
-    ∃ s, Solver.solve (graphSTab np adj) = .ok s ∧ s.t.sameGroup (STab.zero (np + s.ne)) = true
+    ∃ s, Solver.solve (graphSTab np adj) = .ok s ∧ SpanEq s.t (STab.zero (np + s.ne))
+
+/-- **Completeness of the time-reversed solver** (every graph without isolated vertex, every size), under completeness of
+    `inverse_circuit`: no helper raises in any round, both assertions after the loop hold, the replay of the inverse circuit is
+    accepted, and the final tableau generates the group of |0…0⟩ -/
+theorem solver_complete (hinv : InverseCircuitComplete) : solver_complete_statement :=
+  fun np adj hnp hsym hirr hiso => Solver.solve_complete_graph hinv np adj hnp hsym hirr hiso
+
+/-- the same for **any stabilizer target**: real, commuting, independent generators on at least one qubit, no qubit of which is a
+    product qubit (`NotProd`: no group element is supported on that qubit alone) -/
+theorem solver_complete_stabilizer (hinv : InverseCircuitComplete) (target : STab) (hg : target.Good) (hi : target.Indep)
+    (hn : 0 < target.n) (hnp : ∀ p, p < target.n → target.NotProd p) :
+    ∃ s, Solver.solve target = .ok s ∧ SpanEq s.t (STab.zero (target.n + s.ne)) :=
+  Solver.solve_complete_stabilizer hinv target hg hi hn hnp
+
+/-- **The solver is correct** (property C02 for the model, every graph without isolated vertex, every size, every outcome script):
+    `solve` returns a state whose recorded circuit, run from all-|0⟩ by the tableau semantics under EVERY outcome script, ends with the
+    photons exactly in |G⟩ (signs included) and every emitter in |0⟩ — `solve_sound` with its hypothesis discharged by `solver_complete` -/
+theorem solve_correct (hinv : InverseCircuitComplete) (np : Nat) (adj : Nat → Nat → Bool) (hnp : 0 < np)
+    (hsym : ∀ i j, adj i j = adj j i) (hirr : ∀ i, adj i i = false) (hiso : ∀ i, i < np → ∃ j, j < np ∧ adj i j = true) :
+    ∃ s, Solver.solve (graphSTab np adj) = .ok s ∧
+      ∀ script : List Bool, ∃ rs, stabRun s.ne np .prob script s.cops = some rs ∧ rs.t.Valid ∧
+        (STab.ofTab rs.t).n = np + s.ne ∧ ∀ p, (STab.ofTab rs.t).Spn p ↔ (targetSTab np s.ne adj).Spn p := by
+  obtain ⟨s, hs, hfinal⟩ := solver_complete hinv np adj hnp hsym hirr hiso
+  refine ⟨s, hs, fun script => ?_⟩
+  obtain ⟨rs, h1, h2, h3⟩ := Solver.solve_run (graphSTab np adj) (Solver.graphSTab_good np adj hsym) s hs hfinal script
+  have h4 := h3.trans (Solver.withEmitters_graph np s.ne adj)
+  exact ⟨rs, h1, h2, h4.n_eq, fun p => ⟨h4.sub p, h4.sup p⟩⟩
+
+/-! ### The steps of the completeness argument (sub-goals 1–4), each a theorem of its own -/
+
+/-- the loop invariant before the round that absorbs photon `m - 1` (`Solver.RInv`): real commuting independent generators on
+    `np + ne` qubits; photons `m..np-1` absorbed (column literal: one generator is `+Z_q`, no other acts on `q`); no remaining photon is a
+    product qubit; every cut left of the photon to be absorbed has height at most `ne` -/
+abbrev LoopInvariant (np ne m : Nat) (s : Solver.St) : Prop := Solver.RInv np ne m s
+
+/-- the invariant holds when the loop starts (`ne = determine_n_emitters(target)`) -/
+theorem loop_invariant_initially (target : STab) (hg : target.Good) (hi : target.Indep) (ne : Nat)
+    (hdet : Solver.determineNEmitters target = .ok ne) (hnp : ∀ p, p < target.n → target.NotProd p) :
+    LoopInvariant target.n ne target.n { np := target.n, ne := ne, t := Solver.withEmitters target ne, circ := [] } :=
+  Solver.rinv_init target hg hi ne hdet hnp
+
+/-- **sub-goal 1a — the row helpers never raise**: `_add_one_qubit_gate` (because `simplify_local_clifford` is total, C20), the loop
+    over the emitters with `_change_pauli_type`, the sign repair -/
+theorem helpers_return (s : Solver.St) (gs : List Cliff.Gen) (q g e : Nat) (skip : Bool) (hn : s.t.n = s.np + s.ne) (he : e < s.ne) :
+    (∃ s', Solver.addOneQubit s gs q = .ok s') ∧ (∃ s', Solver.allEmittersToZ s g skip = .ok s') ∧
+    (∃ s', Solver.fixSign s g e = .ok s') :=
+  ⟨Solver.addOneQubit_ok s gs q, (Solver.allEmittersToZ_ok s g skip hn).imp fun _ h => h.1,
+   (Solver.fixSign_ok s g e hn he).imp fun _ h => h.1⟩
+
+/-- **sub-goal 1b — `assert not np.any(x_matrix[generator])` of `_transform_generator_emitters` holds** as soon as the generator has no
+    X/Y on any qubit -/
+theorem transform_generator_emitters_returns (s : Solver.St) (g e : Nat) (hn : s.t.n = s.np + s.ne) (he : e < s.ne)
+    (hx : ∀ j, j < s.t.n → (s.t.row g).x j = false) : ∃ s', Solver.transformGeneratorEmitters s g e = .ok s' :=
+  (Solver.transformGeneratorEmitters_ok s g e hn he hx).imp fun _ h => h.1
+
+/-- **sub-goal 2a — a free emitter exists when the height drops** (`assert len(possible_generators) > 0` never fires): in the echelon
+    gauge, with the photons right of `p` absorbed and `h(p) < ne`, some generator acts on no photon -/
+theorem free_emitter_exists (np ne p : Nat) (t : STab) (piv : Nat → Nat) (he : STab.Echelon t piv) (hn : t.n = np + ne) (hp : p < np)
+    (hlit : ∀ q, p + 1 ≤ q → q < np → t.Lit q) (hl : List Int) (hh : t.heightFuncList = .ok hl)
+    (hcond : hl.getD p 0 < (ne : Int)) : ∃ i, i < t.n ∧ ∀ j, j < np → t.ptype i j = 0 :=
+  Solver.free_emitter_exists np ne p t piv he hn hp hlit hl hh hcond
+
+/-- **sub-goal 2b — the time-reversed measurement returns** when some generator acts on no photon and no generator is the identity;
+    it applies gates on the emitters reaching a tableau with `+Z` on the chosen emitter, then `H`, `CNOT(emitter → photon)` -/
+theorem time_reversed_measurement_returns (s : Solver.St) (photon : Nat) (hn : s.t.n = s.np + s.ne) (hg : s.t.Good)
+    (hex : ∃ i, i < s.t.n ∧ ∀ j, j < s.np → s.t.ptype i j = 0)
+    (hnz : ∀ i, i < s.t.n → ∃ j, j < s.t.n ∧ s.t.ptype i j ≠ 0) :
+    ∃ s', Solver.timeReversedMeasurement s photon = .ok s' := by
+  obtain ⟨s', _, _, h, _⟩ := Solver.timeReversedMeasurement_ok s photon hn hg hex hnz
+  exact ⟨s', h⟩
+
+/-- **sub-goal 2c — the generator starting at photon `p` acts on an emitter** when `p` is not a product qubit and the photons right of
+    `p` are absorbed (so `emitter_indices[0]` exists), and it is trivial on the absorbed photons -/
+theorem generator_at_photon_acts_on_emitter (np p : Nat) (t : STab) (hlit : ∀ q, p + 1 ≤ q → q < np → t.Lit q)
+    (hnp : t.NotProd p) (i : Nat) (hi : i < t.n) (hlm : t.leftmost i = some p) :
+    (∃ c, np ≤ c ∧ c < t.n ∧ t.ptype i c ≠ 0) ∧ ∀ j, p < j → j < np → t.ptype i j = 0 :=
+  ⟨(Solver.absorb_hyps np p t hlit hnp).1 i hi hlm, (Solver.absorb_hyps np p t hlit hnp).2 i hi hlm⟩
+
+/-- **sub-goal 3 — every round returns and re-establishes the invariant**; after it photon `p` is disentangled in |0⟩ (column literal) -/
+theorem round_returns (np ne p : Nat) (hp : p < np) (s : Solver.St) (h : LoopInvariant np ne (p + 1) s) :
+    ∃ s', Solver.photonRound s (p + 1) = .ok s' ∧ LoopInvariant np ne p s' ∧ s'.t.Lit p := by
+  obtain ⟨s', h1, h2⟩ := Solver.round_ok np ne p hp s h
+  exact ⟨s', h1, h2, h2.lit p (Nat.le_refl _) hp⟩
+
+/-- **the main loop returns** with every photon absorbed -/
+theorem photon_loop_returns (np ne m : Nat) (s : Solver.St) (h : LoopInvariant np ne m s) :
+    ∃ s', Solver.photonLoop s ((List.range m).reverse.map (· + 1)) = .ok s' ∧ LoopInvariant np ne 0 s' :=
+  Solver.photonLoop_ok np ne m s h
+
+/-- **sub-goal 4a — after the last `rref` generator `q` is exactly `+Z_q` for every photon** (the two assertions of `solve`) -/
+theorem photons_on_the_diagonal (t : STab) (piv : Nat → Nat) (he : STab.Echelon t piv) (np : Nat) (hnp : np ≤ t.n)
+    (hlit : ∀ q, q < np → t.Lit q) : ∀ q, q < np → PRow.EqOn t.n (t.row q) (PRow.Zq q) :=
+  Solver.echelon_lit_rows t piv he np hnp hlit
+
+/-- **sub-goal 4b — `inverse_circuit` emits only gates the replay accepts** (H, P, X anywhere; CNOT, CZ between emitters) when every
+    photon column is literal -/
+theorem inverse_circuit_touches_emitters_only (t t' : STab) (circ : List Gate) (np : Nat) (hnp : np ≤ t.n) (hg : t.Good)
+    (hlit : ∀ q, q < np → t.Lit q) (h : t.inverseCircuit = .ok (t', circ)) : ∀ g, g ∈ circ → STab.Gate.okFor np g :=
+  STab.inverseCircuit_gates_ok t t' circ np hnp hg STab.canonicalForm_lit hlit h
+
+/-- **`rref` returns on every independent generating set, in echelon form** (its fuel `n + 1` suffices, its assertions never fire),
+    and keeps literal columns literal -/
+theorem rref_returns (t : STab) (hi : t.Indep) :
+    ∃ t' brs piv, t.rref = .ok (t', brs) ∧ STab.Echelon t' piv ∧ ∀ q, q < t.n → t.Lit q → t'.Lit q := by
+  obtain ⟨t', brs, piv, h1, h2⟩ := STab.rref_ok_of_indep t hi
+  exact ⟨t', brs, piv, h1, h2, fun q hq hl => STab.rref_lit t t' brs q hq hl h1⟩
 
 /-! ### Non-vacuity: the 3-photon linear cluster generated by one emitter (H e; CNOT e→p2; H e; CNOT e→p1; H e; CNOT e→p0; H p0; H e; measure-and-reset is not needed) -/
 def lin3ops : List COp :=
@@ -192,5 +310,37 @@ example : solveOk 4 sq4adj 2 2 = true := by decide +kernel
 example : (STab.zero 2).Spn (PRow.Zq (1 + 0)) := spn_gen (STab.zero 2) 1 (by decide)
 example : (match stabRun 1 1 .prob [true] [.gate1 .H ⟨.e, 0⟩, .cnot ⟨.e, 0⟩ ⟨.p, 0⟩, .mcr ⟨.e, 0⟩ ⟨.p, 0⟩ 0] with
     | some rs => (STab.ofTab rs.t).sameGroup (STab.zero 2) | none => false) = true := by decide +kernel
+
+/-! ### Non-vacuity of the completeness theorems -/
+
+/-- the linear cluster and the 4-cycle meet the hypotheses of `solver_complete` / `solve_correct` -/
+example : (∀ i, i < 3 → ∃ j, j < 3 ∧ lin3adj i j = true) ∧ ∀ i, lin3adj i i = false := by
+  refine ⟨fun i hi => ?_, fun i => ?_⟩
+  · have : i = 0 ∨ i = 1 ∨ i = 2 := by omega
+    rcases this with e | e | e <;> subst e
+    · exact ⟨1, by decide, by decide⟩
+    · exact ⟨0, by decide, by decide⟩
+    · exact ⟨1, by decide, by decide⟩
+  · simp only [lin3adj]
+    cases h1 : (i == 0) <;> cases h2 : (i == 1) <;> cases h3 : (i == 2) <;> simp_all
+
+/-- the instance of `InverseCircuitComplete` that the linear cluster uses holds: `inverse_circuit` reaches |0…0⟩ on the final
+    echelon tableau of the run (kernel evaluation) -/
+example : (match Solver.photonLoop { np := 3, ne := 1, t := Solver.withEmitters (graphSTab 3 lin3adj) 1, circ := [] } [3, 2, 1] with
+    | .ok s1 => (match s1.t.rref with
+      | .ok (t2, _) => (match t2.inverseCircuit with | .ok (t', _) => t'.isZero | .error _ => false)
+      | .error _ => false)
+    | .error _ => false) = true := by decide +kernel
+
+/-- a stabilizer target that is not a graph state meets the hypotheses of `solver_complete_stabilizer`: the GHZ state `⟨XXX, ZZI, IZZ⟩`
+    (real, commuting; independence and "no product qubit" are what the theorem asks) — the model solver returns on it -/
+def ghz3 : STab :=
+  { n := 3, row := fun i =>
+      if i = 0 then ⟨fun j => decide (j < 3), fun _ => false, false, false⟩
+      else if i = 1 then ⟨fun _ => false, fun j => decide (j = 0 ∨ j = 1), false, false⟩
+      else ⟨fun _ => false, fun j => decide (j = 1 ∨ j = 2), false, false⟩ }
+example : ghz3.isGood = true := by decide
+example : (match Solver.solve ghz3 with | .ok s => s.t.sameGroup (STab.zero (3 + s.ne)) | .error _ => false) = true := by
+  decide +kernel
 
 end Graphiq.C02
